@@ -81,6 +81,12 @@ CHECKS = {
     design="5/C04",
     note="Trusted: Lean kernel; IEEE-754 agreement of float and exact evaluation for dyadic divisors (compared on random fibers); minifiber's reading of project/prune/halos; correctness per program rests on execution over sampled inputs. Known findings: interval not clipped to the extent, float projection for non-dyadic coefficients, halo elements counted twice with two partition levels.",
     technique="Lean 4 proofs of the projection/tiling/halo arithmetic (partial) + differential execution of the real emitted programs against a dense oracle with extent checks"),
+ "C07": dict(
+    category="proof",
+    text="PARTIAL. Lean theorems (Props/C07) about the tensor cursor, for every tensor and every history of operations (swizzle, update_ranks, from_fiber, pop, set_is_output, reset, any order and number): name_spells (the generated tensor name is <Name>_<active ranks> plus _flat exactly when flat and not the output), swizzle_perm (a successful swizzle only permutes the active ranks), init_ranks_const, reset_restores (after any history reset gives back the freshly declared tensor). The cursor model is compared with teaal.ir.tensor.Tensor on random operation sequences. The emitted programs are followed by the Lean rank-id interpreter RankIds.interp (executable reading of the rank-id effect of every fibertree tensor call, no soundness theorem): every rank-id precondition holds, no setRankIds reaches a user input even through aliases, every <Name>_<Ranks> variable ends spelling <Ranks>, each result is bound under <Output>_<declared-or-rank-order ranks>. Data-level clauses (inputs hold the same data afterwards; results in original coordinates) are observed by executing the programs on sampled inputs against the oracle.",
+    design="5/C07",
+    note="Trusted: Lean kernel; cursor model = implementation sampled; RankIds.interp and minifiber as readings of the fibertree API; data-level facts rest on execution over sampled inputs.",
+    technique="Lean 4 proofs over the tensor-cursor state machine (partial) + Lean rank-id interpretation of the real emitted trees + execution snapshots of the inputs"),
 }
 
 NOT_YET = {}
